@@ -30,12 +30,13 @@ pub fn components_stream() -> Value {
 }
 
 pub fn all_property_ids() -> Vec<&'static str> {
-    vec!["C01", "C04", "C05", "C06", "C07", "C08", "C13"]
+    vec!["C01", "C03", "C04", "C05", "C06", "C07", "C08", "C13"]
 }
 
 pub fn property_spec(id: &str) -> Option<PropertySpec> {
     match id {
         "C01" => Some(crate::scen::c01::spec()),
+        "C03" => Some(crate::scen::c03::spec()),
         "C04" => Some(crate::scen::c04::spec()),
         "C05" => Some(crate::scen::c05::spec()),
         "C06" => Some(crate::scen::c06::spec()),
